@@ -203,6 +203,12 @@ def random_flat(ts, rng, arg_names):
 
 
 def body(c):
+    import time
+    marks = [("start", time.time())]
+
+    def stage(name):
+        marks.append((name, time.time()))
+        c.cov["stage_wall_s"] = {marks[i][0]: round(marks[i][1] - marks[i - 1][1], 1) for i in range(1, len(marks))}
     ts = json.load(open(SCHEMA))
     rng = random.Random(c.seed)
     arg_names = {}
@@ -217,7 +223,7 @@ def body(c):
     plain = gen_docs(c, n, 0, 0, 0, 0, "plain")                                 # undecorated, incl. re-spread fragments
     decor = gen_docs(c, 4, 1, 1, 1, 1 if c.quick else 2, "decorated")
     total = len(set(small) | set(plain) | set(decor))
-    cap_plain, cap_decor = (1500, 2500) if c.quick else (40000, 60000)
+    cap_plain, cap_decor = (700, 1300) if c.quick else (40000, 60000)
     exhaustive = True
     if len(plain) > cap_plain:
         keep = [x for x in plain if '"reuse"' in x]
@@ -237,7 +243,7 @@ def body(c):
             continue
         docs.append(d)
     # seeded random bigger documents (valid by construction; key conflicts filtered)
-    nrand = 700 if c.quick else 20000
+    nrand = 400 if c.quick else 20000
     made = 0
     while made < nrand:
         flat, spreads = random_flat(ts, rng, arg_names)
@@ -265,6 +271,7 @@ def body(c):
     for _ in range(ntwo):
         docs.append(two_ops(rng.choice(base), rng.choice(base)))
 
+    stage("G")
     # ---- cases: variable forms ------------------------------------------------------------------------
     cases = []
     for d in docs:
@@ -285,6 +292,7 @@ def body(c):
     if len(meas) != len(cases):
         raise vlib.ToolError("measuring pass produced %d lines for %d documents" % (len(meas), len(cases)))
 
+    stage("V1 measure")
     # ---- runs: every limit at measure-1, measure, measure+1; one all-limits configuration; fast mode ------
     def lim(**kw):
         l = {"depth": -1, "complexity": -1, "recursive": -1, "directives": -1}
@@ -322,6 +330,7 @@ def body(c):
         slim.append(s)
     vlib.write_ndjson(c.path("judge.ndjson"), slim)
 
+    stage("harness")
     # ---- V2: TLC judges every run ------------------------------------------------------------------------
     v = vlib.run_tlc_sliced("gql/LimitsTrace.tla", "gql/LimitsTrace.cfg", c.path("judge.ndjson"), env={"SCHEMA": SCHEMA, "MODE": "judge"},
                             slices=8, timeout=6000, keep_lines=50, xmx="3g")
@@ -329,6 +338,7 @@ def body(c):
     verdicts = {t[1]: json.loads(t[2]) for t in v.tagged("VERDICT")}
     if len(verdicts) != len(obs):
         raise vlib.ToolError("V produced %d verdicts for %d cases" % (len(verdicts), len(obs)))
+    stage("V2 judge")
     nrun = nrej = nacc_ran = 0
     seen_kind = {k: [0, 0] for k in KINDS}
     for o in obs:
@@ -346,6 +356,7 @@ def body(c):
             c.count_case({"t": o["text"], "v": o["vars"], "f": r["flavour"], "m": r["mode"], "l": r["limits"]}, nontrivial=True)
             c.verdict(rv, {"text": o["text"], "vars": o["vars"], "opName": o["opName"], "measures": meas[o["id"]], "run": r, "doc": o["doc"]},
                       "limit enforcement differs from Limits!MustReject (%s, %s)" % (r["flavour"], json.dumps({k: x for k, x in r["limits"].items() if x >= 0})))
+    stage("classify")
     # vacuity: every limit kind must have been seen rejecting and accepting, and accepted requests must have executed
     for k in KINDS:
         if min(seen_kind[k]) == 0:
@@ -372,7 +383,7 @@ def body(c):
                       "table generated from the #[graphql(complexity = ...)] annotations at harness start-up",
                       "the measures are those of the whole document (all operations), as fixed in DESIGN.md section 5 C10",
                       "the static family (harness/vh/src/bin/c10.rs) stands for 'every derive-built schema'; dynamic schemas cannot declare complexity rules",
-                      "resolvers never fail, so a response with errors is a refused request"]
+                      "refused = the response carries errors, its data is null and no resolver of the family was called"]
 
 
 vlib.main("C10", "model_checking", body)
